@@ -10,6 +10,7 @@ returned or raised) and from inside every wrapped body.  It never reads playback
 import hashlib
 import itertools
 import random
+import sys as _sys
 import threading
 import time as _time
 
@@ -600,7 +601,9 @@ class Built(object):
             j = built.journal
             stack = getattr(built._tl, 'stack', None) or [None]
             ev = j.add({'ev': 'body', 'decl': d['name'], 'args': a, 'kwargs': dict(kwargs),
-                        'call_n': stack[-1]['n'] if stack[-1] is not None else None})
+                        'call_n': stack[-1]['n'] if stack[-1] is not None else None,
+                        # what service code sees when it asks for "the exception currently being handled" (error reports, bare raise)
+                        'ambient': type(_sys.exc_info()[1]).__name__ if _sys.exc_info()[1] is not None else None})
             if built.consume('body_discard') and built.recorder is not None:
                 built.recorder.discard_recording()
             if built.consume('body_force') and built.recorder is not None:
